@@ -219,6 +219,12 @@ class Folder:
         if isinstance(node, ast.IfExp):
             return f(node.body) if f(node.test) else f(node.orelse)
         if isinstance(node, ast.Call):
+            if isinstance(node.func, ast.Name) and node.func.id == "map" and "map" not in local and len(node.args) >= 2 and not node.keywords \
+                    and isinstance(node.args[0], ast.Name) and node.args[0].id in _SAFE_BUILTINS and node.args[0].id not in local:
+                seqs = [list(f(a)) for a in node.args[1:]]
+                if any(len(x) > 100000 for x in seqs):
+                    raise Unfoldable("big")
+                return [_SAFE_BUILTINS[node.args[0].id](*xs) for xs in zip(*seqs)]
             if isinstance(node.func, ast.Name) and node.func.id in _SAFE_BUILTINS and node.func.id not in local:
                 args = [f(a) for a in node.args]
                 kw = {k.arg: f(k.value) for k in node.keywords if k.arg}
